@@ -15,6 +15,7 @@ class C07(Prop):
     id = "C07"
     PARALLEL = True
     USES_IMPL = True
+    CASE_TIMEOUT = 60
     trusted_base = [
         "modelled: infer_state_of / state_intersection (trace_acc_state.py, with F1) as the forward analysis knownB; "
         "_weave_states_in_region (convert_linalg_to_accfg.py, with F2) is NOT modelled syntactically: its output is "
